@@ -44,7 +44,7 @@ theorem drawPixel_geo (c : Canvas) (x y : Int) (col : Bool) : (drawPixel c x y c
   · rfl
 
 theorem drawPixel_len (c : Canvas) (x y : Int) (col : Bool) :
-    (drawPixel c x y col).bytes.length = c.bytes.length := by
+    (drawPixel c x y col).bytes.size = c.bytes.size := by
   unfold drawPixel; simp only []; split
   · split <;> simp
   · rfl
@@ -79,7 +79,7 @@ theorem drawPixel_exact (c : Canvas) (hwf : c.WF) (x y : Int) (col : Bool) (X' Y
     have hidx : (Y : Int) * c.geo.wib + (X:Int).tdiv 8 = ((Y * c.geo.wib + X / 8 : Nat) : Int) := by
       rw [htd]; simp
     have hX8 : X / 8 < c.geo.wib := by omega
-    have hlt : Y * c.geo.wib + X / 8 < c.bytes.length := by
+    have hlt : Y * c.geo.wib + X / 8 < c.bytes.size := by
       rw [hl]
       calc Y * c.geo.wib + X / 8 < Y * c.geo.wib + c.geo.wib := by omega
         _ = (Y + 1) * c.geo.wib := by rw [Nat.add_mul]; simp
@@ -87,7 +87,7 @@ theorem drawPixel_exact (c : Canvas) (hwf : c.WF) (x y : Int) (col : Bool) (X' Y
         _ = c.geo.wib * c.geo.H := Nat.mul_comm _ _
     rw [hidx]
     have hin : (0:Int) ≤ ((Y * c.geo.wib + X / 8 : Nat) : Int) ∧
-        ((Y * c.geo.wib + X / 8 : Nat) : Int) < (c.bytes.length : Int) := by
+        ((Y * c.geo.wib + X / 8 : Nat) : Int) < (c.bytes.size : Int) := by
       constructor <;> omega
     rw [if_pos hin]
     simp only [Int.toNat_natCast, hc, true_and]
@@ -100,7 +100,7 @@ theorem drawPixel_exact (c : Canvas) (hwf : c.WF) (x y : Int) (col : Bool) (X' Y
     · have hX'8 : X' / 8 < c.geo.wib := by omega
       obtain ⟨hyy, hxx⟩ := idx_inj c.geo.wib Y' Y (X'/8) (X/8) hX'8 hX8 hsame
       subst hyy
-      rw [hsame, List.getD_eq_getElem?_getD, List.getElem?_set_self hlt]
+      rw [hsame, Array.getD_eq_getD_getElem?, Array.getElem?_setIfInBounds_self, if_pos hlt]
       simp only [Option.getD_some]
       rw [setBit_get _ _ _ (by omega) (by omega)]
       by_cases hbit : X' % 8 = X % 8
@@ -108,14 +108,14 @@ theorem drawPixel_exact (c : Canvas) (hwf : c.WF) (x y : Int) (col : Bool) (X' Y
         subst this; simp
       · have h1 : ¬ (7 - X' % 8 = 7 - X % 8) := by omega
         have h2 : ¬ ((X':Int) = X) := by omega
-        simp [h1, h2, List.getD_eq_getElem?_getD]
+        simp [h1, h2, Array.getD_eq_getD_getElem?]
     · have hne : ¬ ((X':Int) = X ∧ (Y':Int) = Y) := by
         rintro ⟨h1, h2⟩
         have : X' = X := by omega
         have : Y' = Y := by omega
         subst_vars; exact hsame rfl
-      rw [if_neg hne, List.getD_eq_getElem?_getD, List.getElem?_set_ne (Ne.symm hsame),
-        ← List.getD_eq_getElem?_getD]
+      rw [if_neg hne, Array.getD_eq_getD_getElem?, Array.getElem?_setIfInBounds_ne (Ne.symm hsame),
+        ← Array.getD_eq_getD_getElem?]
   · rw [if_neg hc]; simp [hc]
 
 /-! ## Touch / Paint -/
@@ -141,7 +141,7 @@ theorem Touch.trans {R : Region} {a b c : Canvas} (h1 : Touch R a b) (h2 : Touch
     rw [h2.same X Y (by rw [h1.geo]; exact hX) (by rw [h1.geo]; exact hY) hn, h1.same X Y hX hY hn]⟩
 
 theorem Touch.len {R : Region} {c c' : Canvas} (h : Touch R c c') (hc : c.WF) :
-    c'.bytes.length = c.bytes.length := by
+    c'.bytes.size = c.bytes.size := by
   have := h.wf.2; rw [h.geo] at this; rw [this, hc.2]
 
 theorem Paint.refl_empty (v : Bool) (c : Canvas) (h : c.WF) : Paint (fun _ _ => False) v c c :=
